@@ -1,6 +1,6 @@
 (* Theorems about the signal model (C10, C11). *)
 From Coq Require Import List Bool Arith Lia.
-From Asphalt Require Import Ev.SigModel Gen.Gen_signal.
+From Asphalt Require Import Ev.SigModel Gen.Gen_signal Gen.Gen_stream.
 Import ListNotations.
 
 (* ================= the table of bound signals (C11) ================= *)
@@ -481,4 +481,31 @@ Theorem signal_dispatch_source_shape :
   sig_class_check_by_isinstance = true /\ sig_check_before_stamping = true /\
   sig_stamps_source_topic_time = true /\ sig_iterates_over_copy = true /\
   sig_closed_receiver_skipped = true /\ sig_full_queue_warns_and_drops = true.
+Proof. repeat split. Qed.
+
+(* ---------- wait_event's own stream (Gen_stream) ---------- *)
+Lemma pull_cap st : s_cap (fst (pull st)) = s_cap st.
+Proof. unfold pull. destruct (pull_from (s_flt st) (s_queue st)) as [[taken y] rest]. destruct y; reflexivity. Qed.
+
+(* the stream wait_event opens is the last one of the state after the step, and it is unbounded *)
+Theorem wait_stream_unbounded : forall s cs f,
+  exists st, streams (fst (sstep s (Wait cs f))) = streams s ++ [st] /\ s_cap st = None /\ s_oneshot st = true /\
+             s_chans st = cs /\ s_flt st = f.
+Proof.
+  intros s cs f. unfold sstep, pull, new_stream. cbn. eexists. split; [reflexivity|]. cbn. repeat split.
+Qed.
+
+(* ... so no dispatch is ever dropped for it, whatever else is queued for it and however many events that do not
+   pass its filter arrive first *)
+Theorem wait_event_never_loses : forall s cs f st e,
+  streams (fst (sstep s (Wait cs f))) = streams s ++ [st] -> snd (deliver1 e st) = false.
+Proof.
+  intros s cs f st e H. destruct (wait_stream_unbounded s cs f) as [st' [H' [Hc _]]].
+  rewrite H in H'. apply app_inj_tail in H'. destruct H' as [_ ->]. now apply unbounded_never_drops.
+Qed.
+
+Theorem stream_source_shape :
+  stream_default_queue = 50 /\ wait_queue = None /\ stream_filter_on_receiving_side = true /\
+  stream_subscribes_on_entry = true /\ stream_one_queue_for_all_signals = true /\
+  stream_unsubscribes_on_exit = true /\ wait_returns_first_yielded = true /\ shortcuts_delegate = true.
 Proof. repeat split. Qed.
